@@ -475,6 +475,7 @@ fn main() {
                     let op = if generic { gen_generic(&mut r, &fb, &obs) } else { gen_wrapper(&mut r, &obs) };
                     let own = obs["admin"] == "self";
                     time_passes(&sys.e, &mut r, 3000);
+                    time_passes_long(&sys.e, &mut r);
                     let ev = sys.step(&op);
                     feedback(&mut fb, &op, &ev, own);
                     obs = ev["obs"].clone();
